@@ -172,7 +172,7 @@ func runEnsureBig(ctx *core.Ctx) {
 // has put a deep value into a deep document - the library then holds a document it cannot re-read.
 func runCombinedNesting(ctx *core.Ctx) {
 	p := &seqProp{ID: "C04", Judge: func(*seqRun) {}}
-	const n = 6000
+	const n = 5100 // 2n > 10000; each call walks n tokens over nested text (quadratic): about a second
 	type shape struct{ doc, val, bottom string }
 	arrDoc := strings.Repeat("[", n) + strings.Repeat("]", n)
 	objDoc := strings.Repeat(`{"a":`, n-1) + "{}" + strings.Repeat("}", n-1)
@@ -185,56 +185,61 @@ func runCombinedNesting(ctx *core.Ctx) {
 		sh     shape
 		second string
 		legacy bool
+		indent string
+		merge  bool
 	}
 	var units []unit
 	for _, sh := range shapes {
 		first := sh.bottom[:strings.Index(sh.bottom[1:], "/")+1]
-		for _, second := range []string{``,
+		seconds := []string{``,
 			`{"op":"test","path":"","value":1}`, `{"op":"test","path":"` + first + `","value":[]}`,
 			`{"op":"copy","from":"","path":"/zz"}`, `{"op":"copy","from":"` + first + `","path":"/zz"}`,
 			`{"op":"move","from":"` + first + `","path":"/zz"}`, `{"op":"remove","path":"` + sh.bottom[:len(sh.bottom)-2] + `"}`,
-			`{"op":"replace","path":"` + first + `","value":null}`, `{"op":"add","path":"` + first + `/zz","value":1}`} {
-			for _, legacy := range []bool{false, true} {
-				units = append(units, unit{sh, second, legacy})
+			`{"op":"replace","path":"` + first + `","value":null}`, `{"op":"add","path":"` + first + `/zz","value":1}`}
+		for i, second := range seconds {
+			units = append(units, unit{sh: sh, second: second})
+			if i <= 2 {
+				units = append(units, unit{sh: sh, second: second, legacy: true}, unit{sh: sh, second: second, indent: " "})
 			}
 		}
+		units = append(units, unit{sh: sh, merge: true}, unit{sh: sh, merge: true, legacy: true})
 	}
 	ctx.Parallel(len(units), func(w *core.Worker, i int) {
 		u := units[i]
+		if u.merge {
+			w.Tick(func() string { return "combined nesting: MergePatch of two deep values" })
+			r := impl.MergePatch(u.legacy, []byte(`{"k":`+u.sh.doc+`}`), []byte(`{"k":`+u.sh.val+`,"j":`+u.sh.doc+`}`))
+			atomic.AddInt64(&nExec, 1)
+			ctx.Count("c04_combined_nesting_runs", 1)
+			if r.Panic != "" {
+				ctx.Violate(core.Violation{Property: "C04", Clause: "panic", Key: "C04:panic:" + impl.PanicSite(r.Panic), Engine: "mergex",
+					Detail: "MergePatch of two deep values: " + r.Panic, Case: core.J(MergeCase{Func: "MergePatch", Args: []string{"<deep>", "<deep>"}})})
+			}
+			return
+		}
 		patch := `[{"op":"add","path":"` + u.sh.bottom + `","value":` + u.sh.val + `}`
 		if u.second != "" {
 			patch += "," + u.second
 		}
 		patch += "]"
 		w.Tick(func() string {
-			return "combined nesting: add a 6000-deep value at the bottom of a 6000-deep document, then " + u.second
+			return fmt.Sprintf("combined nesting (legacy=%v indent=%q): add a %d-deep value at the bottom of a %d-deep document, then %s", u.legacy, u.indent, n, n, u.second)
 		})
-		for _, indent := range []string{"", " "} {
-			call := impl.Call{Doc: []byte(u.sh.doc), Patch: []byte(patch), Opt: defaultOpt, Indent: indent}
-			var o impl.Obs
-			lib := "v5"
-			if u.legacy {
-				o, lib = impl.V4Apply(call), "v4"
-			} else {
-				o = impl.V5Apply(call)
-			}
-			atomic.AddInt64(&nExec, 1)
-			ctx.Count("c04_combined_nesting_runs", 1)
-			if o.Panic != "" {
-				_ = p
-				ctx.Violate(core.Violation{Property: "C04", Clause: "panic", Key: "C04:panic:" + impl.PanicSite(o.Panic), Engine: "seqx",
-					Detail: fmt.Sprintf("[%s] a %d-deep document, add of a %d-deep value at its bottom, then %s: %s", lib, n, n, u.second, o.Panic),
-					Case:   core.J(SeqCase{Lib: lib, Doc: "<" + fmt.Sprint(n) + "-deep document: see detail>", Patch: "<see detail>", Opt: defaultOpt})})
-			}
+		call := impl.Call{Doc: []byte(u.sh.doc), Patch: []byte(patch), Opt: defaultOpt, Indent: u.indent}
+		var o impl.Obs
+		lib := "v5"
+		if u.legacy {
+			o, lib = impl.V4Apply(call), "v4"
+		} else {
+			o = impl.V5Apply(call)
 		}
-		// the merge functions with the same combination
-		for _, legacy := range []bool{false, true} {
-			r := impl.MergePatch(legacy, []byte(`{"k":`+u.sh.doc+`}`), []byte(`{"k":`+u.sh.val+`,"j":`+u.sh.doc+`}`))
-			atomic.AddInt64(&nExec, 1)
-			if r.Panic != "" {
-				ctx.Violate(core.Violation{Property: "C04", Clause: "panic", Key: "C04:panic:" + impl.PanicSite(r.Panic), Engine: "mergex",
-					Detail: "MergePatch of two 6000-deep values: " + r.Panic, Case: core.J(MergeCase{Func: "MergePatch", Args: []string{"<deep>", "<deep>"}})})
-			}
+		atomic.AddInt64(&nExec, 1)
+		ctx.Count("c04_combined_nesting_runs", 1)
+		if o.Panic != "" {
+			_ = p
+			ctx.Violate(core.Violation{Property: "C04", Clause: "panic", Key: "C04:panic:" + impl.PanicSite(o.Panic), Engine: "seqx",
+				Detail: fmt.Sprintf("[%s] a %d-deep document, add of a %d-deep value at its bottom, then %s: %s", lib, n, n, u.second, o.Panic),
+				Case:   core.J(SeqCase{Lib: lib, Doc: "<" + fmt.Sprint(n) + "-deep document: see detail>", Patch: "<see detail>", Opt: defaultOpt})})
 		}
 	})
 }
@@ -318,7 +323,7 @@ func init() {
 				"(1) every string over 16 symbols up to length 4 (thorough 5) in every []byte parameter of both packages (DecodePatch, Apply, Equal, MergePatch, MergeMergePatches, CreateMergePatch), the other parameter over {same, {}, [], {\"a\":1}, null}; " +
 				"(2) operation sequences of length <= 2 in which at least one operation is out-of-domain (empty tokens, non-canonical / overflowing / MinInt64 index tokens, bad ~ escapes, pointers without '/', '' as destination or remove target, root replaced by null or a scalar, test without value) " +
 				"on 8 documents under every combination of the ApplyOptions booleans with limits {0,1,10^6} (quick: one limit per combination), 3 indent strings; legacy package under its globals; " +
-				"(3) 10000/10001-deep nesting into every entry point of both packages, and nesting that only exceeds the limit after an add put a 6000-deep value at the bottom of a 6000-deep document (followed by each kind of operation); (4) EnsurePathExistsOnAdd with indices up to 10^4; (5) DecodePatch + accessors + Apply on awkward operation objects (every kind with every subset of its members missing or null); (6) ~10^4 string shapes (run-length patterns of ASCII / invalid UTF-8 / multi-byte / escapes around the decoder's buffer-growth boundaries) as root, element, member value and member name. states = distinct well-formed strings; non-trivial = library calls"
+				"(3) 10000/10001-deep nesting into every entry point of both packages, and nesting that only exceeds the limit after an add put a 5100-deep value at the bottom of a 5100-deep document (followed by each kind of operation); (4) EnsurePathExistsOnAdd with indices up to 10^4; (5) DecodePatch + accessors + Apply on awkward operation objects (every kind with every subset of its members missing or null); (6) ~10^4 string shapes (run-length patterns of ASCII / invalid UTF-8 / multi-byte / escapes around the decoder's buffer-growth boundaries) as root, element, member value and member name. states = distinct well-formed strings; non-trivial = library calls"
 			n := 4
 			if tier == "thorough" {
 				n = 5
